@@ -11,12 +11,12 @@ import (
 
 // iterView adapts the five iterator interfaces to one shape.
 type iterView struct {
-	name  string  // method name; args are appended lazily
+	name  string // method name; args are appended lazily
 	args  [2]int64
 	nargs int
 	it    graph.Iterator
 	cur   func() item
-	slice func() []item         // nil when the iterator has no XxxSlice method
+	slice func() []item           // nil when the iterator has no XxxSlice method
 	each  func(i int) *vk.Failure // optional hook on every element of the first pass
 }
 
